@@ -30,6 +30,8 @@ def cases(ctx):
         yield {"kind": "hist", "cfg": cfg, "n": n, "hseed": rng.getrandbits(32)}
     for cfg in ipgen.configs(rng, ctx.pick(1, 6), fam=4, quick=ctx.quick):
         cfg["salter"] = "default"
+        cfg["B"] = rng.choice([None, 0, 8])
+        cfg["pp"] = rng.choice([None, None, ["10.0.0.0/8", "100.64.0.0/10"]])
         yield {"kind": "hist", "cfg": cfg, "n": 300, "hseed": rng.getrandbits(32), "warmup": ctx.pick(6000, 30000)}
     for fcfg in ipref.file_configs(rng, ctx.per_shard(ctx.pick(30, 900)), quick=ctx.quick):
         yield {"kind": "files", "fcfg": fcfg, "lseed": rng.getrandbits(32), "nfiles": rng.randint(2, 6),
